@@ -76,9 +76,15 @@ func counts(o *Obligation, ct *Contract, prop string) bool {
 		if t == prop || t == "support" || t == "*" {
 			return true
 		}
+		if ct != nil && lemmaSupport[ct.Key][t] {
+			return true
+		}
 	}
 	return false
 }
+
+// lemmaSupport: callee key -> tags of the clauses that this property's proved lemmas used from that callee.
+var lemmaSupport = map[string]map[string]bool{}
 
 var thoroughTier bool
 
@@ -242,6 +248,73 @@ func RunCheck(opts CheckOpts) int {
 		}
 	}
 	wg.Wait()
+
+	// ---- lemma support ----
+	// A proved lemma of this property (round trip, re-encode) is a statement over the contracts of the functions it
+	// calls. The clauses of those callees that the lemma used are therefore carried by this property too: they are
+	// proved by this check (not only assumed from the check of the property they are tagged with), together with
+	// the loop invariants of the same tags. Known findings recorded against such a clause under another property
+	// apply here as well (and are printed), so the unit is run again with them.
+	lemmaSupport = map[string]map[string]bool{}
+	if opts.Prop != "" && opts.Only == "" {
+		var work []string
+		for k := range results {
+			ct := eng.contracts[k]
+			if ct == nil || !ct.Lemma || ct.Trusted || !relevant(ct, opts.Prop) {
+				continue
+			}
+			work = append(work, k)
+		}
+		sort.Strings(work)
+		seen := map[string]bool{}
+		for len(work) > 0 {
+			k := work[0]
+			work = work[1:]
+			r := results[k]
+			if seen[k] || r == nil {
+				continue
+			}
+			seen[k] = true
+			for callee, labels := range r.UsedCallee {
+				c2 := eng.contracts[callee]
+				if c2 == nil || c2.Trusted || c2.Rec || c2.Lemma {
+					continue
+				}
+				for _, cl := range c2.Ensures {
+					if !labels[cl.Label] {
+						continue
+					}
+					for _, t := range cl.Tags {
+						if lemmaSupport[callee] == nil {
+							lemmaSupport[callee] = map[string]bool{}
+						}
+						lemmaSupport[callee][t] = true
+					}
+				}
+				work = append(work, callee) // and, transitively, what that callee's own proof rests on
+			}
+		}
+		for callee := range lemmaSupport {
+			var add []Finding
+			for _, f := range ff.Findings {
+				if f.Function != callee || f.forProp(opts.Prop) {
+					continue
+				}
+				dup := false
+				for _, g := range add {
+					dup = dup || g.Obligation == f.Obligation
+				}
+				if !dup {
+					f.Property, f.Properties = opts.Prop, nil
+					add = append(add, f)
+				}
+			}
+			if len(add) > 0 {
+				findings = append(findings, add...)
+				results[callee] = eng.Verify(eng.contracts[callee], opts.Prop, findings)
+			}
+		}
+	}
 	tExec := time.Since(t0)
 
 	// ---- discharge ----
